@@ -11,7 +11,7 @@ R5  formula_statement::execute: values of an object-variable argument that are n
 R6  new_eq / equates sibling agreement of the item classes.
 """
 from ..expr import LocalEnv, canon, show
-from ..facts import AnalysisBroken, short, src, walk, walk_nolambda
+from ..facts import AnalysisBroken, kids, short, src, walk, walk_nolambda
 from ..schema import posted, show_clause
 from ..tables import VecBuilder, enum_paths, fmt_items
 from .. import cfg
@@ -226,7 +226,104 @@ def r4(ctx, fs):
     theories = {'smt::sat_core::new_eq': 'BOOL', 'smt::lra_theory::new_eq': 'INT/REAL', 'smt::rdl_theory::new_eq': 'TP'}
     used = sorted({l[1] for c, _, _ in cl for l in c[1] if isinstance(l, tuple) and l[0] == 'mcall' and l[1].endswith('::new_eq')})
     if used != sorted(theories):
+        pass
+    new_enum_hull(ctx, fs, rid)
+    if used != sorted(theories):
         ctx.finding(rid, f.id, 'theories', 'core::new_enum must tie bool values with sat_core::new_eq, int / real with lra_theory::new_eq and tp with rdl_theory::new_eq (found %s)' % used, loc=f.loc)
+
+
+def new_enum_hull(ctx, fs, rid):
+    """core::new_enum(type, lits, vals), arithmetic arms: the derived variable is folded to a constant only when ALL candidate values are the same
+    constant, and the helping bounds enclose every candidate: min = least lower bound, max = greatest upper bound over vals (an exact dual pair),
+    constant iff min == max, x >= min and x <= max."""
+    f = fs.fn('ratio::core::new_enum', params=['type', 'lit', 'item'])
+    env = LocalEnv(f)
+    env.param_roles(['tp', 'lits', 'vals'])
+    loops = [n for n in f.nodes() if n.get('k') == 'CXXForRangeStmt' and canon(n['slots']['range'], env, subst=False) == 'vals'
+             and len(n['slots']['var'].get('bindings') or []) == 0]
+    arms = 0
+    for lp in loops:
+        dec = [m for m in walk(lp['slots']['body']) if m.get('k') in ('DecompositionDecl',) or (m.get('k') == 'VarDecl' and m.get('bindings'))]
+        binds = None
+        for m in walk(lp['slots']['body']):
+            if m.get('bindings') and len(m['bindings']) == 2:
+                binds = m['bindings']
+                init = m.get('init')
+        if not binds:
+            continue
+        callee = [x.get('callee_name') for x in walk(init) if x.get('callee_name')] if init else []
+        if not any((c or '').endswith('::bounds') for c in callee):
+            continue
+        arms += 1
+        lo, hi = binds
+        upd = []
+        for m in walk(lp['slots']['body']):
+            if m.get('k') == 'IfStmt':
+                c = canon(m['slots']['cond'], env, subst=False)
+                st = [canon(x, env, subst=False) for x in walk(m['slots']['then']) if x.get('k') in ('CXXOperatorCallExpr', 'BinaryOperator') and x.get('op') == '=']
+                upd.append((c, st, m))
+        roles = {}
+        bad = []
+        for c, st, m in upd:
+            if len(st) != 1 or not isinstance(c, tuple) or c[0] not in ('<', '>', '<=', '>=') or len(c) != 3:
+                bad.append(src(m))
+                continue
+            tgt, val = st[0][1], st[0][2]
+            # normalise cond to tgt REL val
+            if c[1] == tgt and c[2] == val:
+                rel = c[0]
+            elif c[2] == tgt and c[1] == val:
+                rel = {'<': '>', '>': '<', '<=': '>=', '>=': '<='}[c[0]]
+            else:
+                bad.append(src(m))
+                continue
+            if val == lo and rel in ('>', '>='):
+                roles['min'] = tgt
+            elif val == hi and rel in ('<', '<='):
+                roles['max'] = tgt
+            else:
+                bad.append(src(m))
+        ok = not bad and set(roles) == {'min', 'max'} and roles['min'] != roles['max']
+        par0 = f.parent(lp)
+        before = list(kids(par0))
+        before = before[:before.index(lp)]
+        decl = {}
+        for b in before:
+            for m in walk(b):
+                if m.get('k') == 'VarDecl' and m.get('init') is not None:
+                    decl[m.get('name')] = show(canon(m['init'], env, subst=False))
+        inits_ok = ok and 'POSITIVE_INFINITY' in decl.get(roles['min'], '') and 'NEGATIVE_INFINITY' in decl.get(roles['max'], '')
+        key = [c for c in callee if (c or '').endswith('::bounds')][0].split('::')[1] + ':%d' % arms
+        ctx.instance(rid, [f.id, 'hull', key], {'loop': short(lp.get('loc')), 'min': roles.get('min'), 'max': roles.get('max'), 'updates_ok': ok, 'inits_ok': inits_ok, 'unexpected': bad})
+        if not ok or not inits_ok:
+            ctx.finding(rid, f.id, 'hull:' + key, 'core::new_enum, arithmetic arm at %s: min must become the least lower bound (if (min > lb) min = lb, from +inf) and max the greatest upper bound (if (max < ub) max = ub, from -inf) '
+                        'of the candidate values%s - otherwise candidates with different values are folded into one constant or cut off by the helping bounds, and the field read through the object variable is '
+                        'no longer the field of the chosen object' % (short(lp.get('loc')), (' (unexpected: %s)' % '; '.join(bad)) if bad else ''), node=lp)
+            continue
+        # constant iff min == max ; bounds x >= min, x <= max
+        mn, mx = roles['min'], roles['max']
+        par = f.parent(lp)
+        sibs = list(kids(par))
+        after = sibs[sibs.index(lp) + 1:]
+        cst = None
+        for a in after:
+            if a.get('k') == 'IfStmt':
+                c = canon(a['slots']['cond'], env, subst=False)
+                if isinstance(c, tuple) and c[0] == '==' and set(c[1:]) == {mn, mx}:
+                    cst = a
+        geq = leq = False
+        for a in after:
+            for x in walk(a):
+                if x.get('k') == 'CXXMemberCallExpr' and (x.get('callee_name') or '').endswith('::new_geq'):
+                    geq = geq or (mn in show(canon(x, env, subst=False)).split() or ('(mcall inf_rational::get_rational %s)' % mn) in show(canon(x, env, subst=False)))
+                if x.get('k') == 'CXXMemberCallExpr' and (x.get('callee_name') or '').endswith('::new_leq'):
+                    leq = leq or ('(mcall inf_rational::get_rational %s)' % mx) in show(canon(x, env, subst=False))
+        ctx.instance(rid, [f.id, 'hull-use', key], {'constant_iff_min_eq_max': cst is not None, 'x_geq_min': geq, 'x_leq_max': leq})
+        if cst is None or not geq or not leq:
+            ctx.finding(rid, f.id, 'hull-use:' + key, 'core::new_enum, arithmetic arm at %s: the value is a constant only when min == max, and the helping bounds are x >= min and x <= max (found constant test: %s, >= min: %s, <= max: %s)'
+                        % (short(lp.get('loc')), cst is not None, geq, leq), node=lp)
+    if arms != 3:
+        raise AnalysisBroken('%s: expected three arithmetic arms (int, real, tp) with a bounds loop, found %d' % (f.id, arms))
 
 
 def r5(ctx, fs):
